@@ -9,7 +9,7 @@ set_option linter.unusedSectionVars false
 set_option linter.unusedVariables false
 
 namespace Mst
-variable {K V D : Type} [LinearOrder K] [LinearOrder V] [DecidableEq D]
+variable {K V D : Type} [LinearOrder K] [Max V] [DecidableEq D]
 
 /-- No digest collision occurs among any page pre-images (the "up to collisions of the 128-bit page
 digest" proviso of C03–C07, assumed for the whole run in the schedule-level theorems). -/
